@@ -26,6 +26,38 @@ LEAN_MODULES = ["LenaModel.Props.C10"]
 LEAN_SOURCES = ["LenaModel/Model/C10.lean", "LenaModel/Props/C10.lean"]
 DRIVER = "drivers/C10.lean"
 THEOREMS = [
+    "Lena.C10.interleave_law",
+    "Lena.C10.interleave_out",
+    "Lena.C10.selected_independent",
+    "Lena.C10.selected_independent'",
+    "Lena.C10.unselected_same_objects_in_order",
+    "Lena.C10.state_untouched_by_unselected",
+    "Lena.C10.every_flow_is_an_interleaving",
+    "Lena.C10.run_determined_by_selected",
+    "Lena.C10.toCSV_passes",
+    "Lena.C10.write_passes",
+    "Lena.C10.render_passes",
+    "Lena.C10.png_passes",
+    "Lena.C10.histToGraph_passes",
+    "Lena.C10.iterateBins_passes",
+    "Lena.C10.mapBins_passes",
+    "Lena.C10.runIf_passes",
+    "Lena.C10.mapGroup_passes",
+    "Lena.C10.toCSV_interleave",
+    "Lena.C10.write_interleave",
+    "Lena.C10.render_interleave",
+    "Lena.C10.png_interleave",
+    "Lena.C10.histToGraph_interleave",
+    "Lena.C10.iterateBins_interleave",
+    "Lena.C10.mapBins_interleave",
+    "Lena.C10.runIf_interleave",
+    "Lena.C10.mapGroup_interleave",
+    "Lena.C10.toCSV_state_untouched",
+    "Lena.C10.render_state_untouched",
+    "Lena.C10.histToGraph_state_untouched",
+    "Lena.C10.iterateBins_state_untouched",
+    "Lena.C10.mapBins_state_untouched",
+    "Lena.C10.write_already_written",
 ]
 TRUSTED = [
     "Lean 4.33.0 kernel; axioms limited to propext, Classical.choice, Quot.sound (audited by #print axioms on every run)",
@@ -1113,10 +1145,10 @@ def _configs(tier):
             {"d": {"k": "rows", "id": n(), "rk": "ok", "upd": False}},
             {"d": {"k": "rows", "id": n(), "rk": "ok", "upd": True}, "c": {"n": n()}},
             {"d": {"k": "rows", "id": n(), "rk": "empty", "upd": False}, "c": {"output": {"to_csv": 1}}},
-            {"d": _hist(ids, 1, "vec")},                        # LenaTypeError
-            {"d": _hist(ids, 2, "vec"), "c": {"n": n()}},        # TypeError
-            {"d": _hist(ids, 1, "hist")},                        # LenaTypeError
-            {"d": {"k": "rows", "id": n(), "rk": "notiter", "upd": False}},   # TypeError
+            {"_e": 1, "d": _hist(ids, 1, "vec")},                        # LenaTypeError
+            {"_e": 1, "d": _hist(ids, 2, "vec"), "c": {"n": n()}},        # TypeError
+            {"_e": 1, "d": _hist(ids, 1, "hist")},                        # LenaTypeError
+            {"_e": 1, "d": {"k": "rows", "id": n(), "rk": "notiter", "upd": False}},   # TypeError
         ]
 
     def b_tocsv(ids, rng):
@@ -1149,8 +1181,8 @@ def _configs(tier):
             {"d": {"k": "str", "v": "$R/sub/already.txt"}, "c": {"output": {"filename": "already"}}},
             {"d": {"k": "str", "v": "$R/already.txt"}, "c": {"output": {"filename": "already"}, "n": n()}},
             {"d": {"k": "str", "v": "$R/output.txt"}, "c": {"n": n()}},
-            {"d": {"k": "str", "v": "t%d" % n()}, "c": {"output": {"filename": ""}}},        # LenaRuntimeError
-            {"d": {"k": "str", "v": "t%d" % n()}, "c": {"output": 5}},                      # AttributeError
+            {"_e": 1, "d": {"k": "str", "v": "t%d" % n()}, "c": {"output": {"filename": ""}}},        # LenaRuntimeError
+            {"_e": 1, "d": {"k": "str", "v": "t%d" % n()}, "c": {"output": 5}},                      # AttributeError
         ]
 
     def b_write(ids, rng):
@@ -1176,7 +1208,7 @@ def _configs(tier):
             {"d": {"k": "str", "v": "$R/x%d.csv" % n()}, "c": {"output": {"filetype": "csv"}}},
             {"d": {"k": "str", "v": "$R/y%d.csv" % n()}, "c": {"output": {"filetype": "csv", "template": "t2.tex"}, "a": n()}},
             {"d": {"k": "int", "v": 1000 + n()}, "c": {"output": {"filetype": "csv", "fileext": "csv", "template": ""}}},
-            {"d": {"k": "obj", "id": n()}, "c": {"output": {"filetype": "csv", "template": "missing.tex"}}},   # TemplateNotFound
+            {"_e": 1, "d": {"k": "obj", "id": n()}, "c": {"output": {"filetype": "csv", "template": "missing.tex"}}},   # TemplateNotFound
         ]
 
     def b_render(ids, rng):
@@ -1218,8 +1250,8 @@ def _configs(tier):
                 {"d": {"k": "str", "v": "$R/t1.tex"}, "c": {"output": {"filetype": "tex", "changed": True}}},
                 {"d": {"k": "str", "v": "$R/t3.tex"}, "c": {"output": {"filetype": "tex", "changed": 0}}},
                 {"d": {"k": "str", "v": "$R/new%d.tex" % n()}, "c": {"output": {"filetype": "tex"}}},
-                tex("nosrc"),                                                       # FileNotFoundError
-                {"d": {"k": "int", "v": 1000 + n()}, "c": {"output": {"filetype": "tex"}}}]   # AttributeError
+                dict(tex("nosrc"), _e=1),                                                       # FileNotFoundError
+                {"_e": 1, "d": {"k": "int", "v": 1000 + n()}, "c": {"output": {"filetype": "tex"}}}]   # AttributeError
 
     def b_pdf(ids, rng):
         n = ids.next
@@ -1243,7 +1275,7 @@ def _configs(tier):
                                         "c": {"output": dict({"filetype": "pdf"}, **(extra or {})), "n": n()}}
         return [pdf("p1"), pdf("p2"), pdf("p2", {"changed": True}), pdf("p2", {"changed": False}), pdf("p3"),
                 pdf("q%d" % n(), {"changed": 0}),
-                {"d": {"k": "obj", "id": n()}, "c": {"output": {"filetype": "pdf"}}}]     # AttributeError
+                {"_e": 1, "d": {"k": "obj", "id": n()}, "c": {"output": {"filetype": "pdf"}}}]     # AttributeError
 
     def b_png(ids, rng):
         n = ids.next
@@ -1292,10 +1324,10 @@ def _configs(tier):
             n = ids.next
             b = kinds[0]
             return hists(kinds)(ids, rng) + [
-                {"d": _hist(ids, 1, b), "c": {"variable": {"latex": "x"}}},          # KeyError
-                {"d": _hist(ids, 2, b), "c": {"variable": {"name": "x"}}},           # LenaValueError
-                {"d": _hist(ids, 1, b), "c": {"variable": "x"}},                     # TypeError
-                {"d": _hist(ids, 1, b), "c": {"variable": 5, "n": n()}},             # TypeError
+                {"_e": 1, "d": _hist(ids, 1, b), "c": {"variable": {"latex": "x"}}},          # KeyError
+                {"_e": 1, "d": _hist(ids, 2, b), "c": {"variable": {"name": "x"}}},           # LenaValueError
+                {"_e": 1, "d": _hist(ids, 1, b), "c": {"variable": "x"}},                     # TypeError
+                {"_e": 1, "d": _hist(ids, 1, b), "c": {"variable": 5, "n": n()}},             # TypeError
             ]
         return mk
 
@@ -1347,9 +1379,9 @@ def _configs(tier):
             {"d": {"k": "seq", "tuple": False, "items": [i()]}, "c": {"group": [{"g": n()}], "n": n()}},
             {"d": {"k": "seq", "tuple": True, "items": [i(), _hist(ids, 1, "num"), i()]},
              "c": {"group": [{}, {"x": 1}, {"x": 1}], "foo": "bar"}},
-            {"d": {"k": "seq", "tuple": False, "items": [i(), i()]}, "c": {"group": [{"g": 1}]}},          # LenaRuntimeError
-            {"d": {"k": "seq", "tuple": False, "items": [i(), i()]}, "c": {"group": [{"g": 1}, 5]}},       # LenaTypeError
-            {"d": {"k": "seq", "tuple": False, "items": []}, "c": {"group": []}},                         # IndexError
+            {"_e": 1, "d": {"k": "seq", "tuple": False, "items": [i(), i()]}, "c": {"group": [{"g": 1}]}},          # LenaRuntimeError
+            {"_e": 1, "d": {"k": "seq", "tuple": False, "items": [i(), i()]}, "c": {"group": [{"g": 1}, 5]}},       # LenaTypeError
+            {"_e": 1, "d": {"k": "seq", "tuple": False, "items": []}, "c": {"group": []}},                         # IndexError
         ]
 
     def b_group(ids, rng):
@@ -1372,7 +1404,14 @@ def _draw(rng, palette, n):
     """n values of the palette; error-raising ones (the last of a palette, by convention mixed in) are allowed"""
     if not palette:
         return []
-    return [copy.deepcopy(rng.choice(palette)) for _ in range(n)]
+    ok = [v for v in palette if not v.get("_e")]
+    bad = [v for v in palette if v.get("_e")]
+    out = []
+    for _ in range(n):
+        v = copy.deepcopy(rng.choice(bad if bad and (not ok or rng.random() < 0.12) else ok))
+        v.pop("_e", None)
+        out.append(v)
+    return out
 
 
 def _one_none(vals):
